@@ -185,11 +185,15 @@ fn jaeger_mode(inp: &str, outp: &str) -> std::io::Result<()> {
             obs = json!({"ev":"jaeger","id":case["id"],"classes":classes,"sizes":sizes,"datagrams":dg,"hung":hung,
                          "malformed":bad,"attempts":attempts});
             // UDP on loopback may drop under pressure: an anomaly is believed only if it repeats
-            if flat == want || attempts >= 8 {
+            if flat == want || attempts >= 8 || hung {
                 break;
             }
         }
         writeln!(out, "{}", obs)?;
+        if obs["hung"] == true {
+            // the reporter thread is still spinning and keeps sending: nothing after this can be trusted
+            break;
+        }
     }
     out.flush()
 }
